@@ -921,16 +921,21 @@ pub(crate) fn is_valid_duration(
     // in C++ with an implementation of core::remquo() with sufficient bits in the quotient.
     // String manipulation will also give an exact result, since the multiplication is by a power of 10.
     // Seconds part
-    let normalized_seconds = (days.0 as i128 * 86_400)
-        + (hours.0 as i128) * 3600
-        + minutes.0 as i128 * 60
-        + seconds.0 as i128;
-    // Subseconds part
-    let normalized_subseconds_parts = (milliseconds.0 as i128 / 1_000)
-        + (microseconds.0 as i128 / 1_000_000)
-        + (nanoseconds.0 as i128 / 1_000_000_000);
+    // NOTE: the fields share one sign (checked above), so saturating arithmetic is monotone
+    // and a saturated total is rejected by the limit below.
+    let normalized_seconds = (days.0 as i128)
+        .saturating_mul(86_400)
+        .saturating_add((hours.0 as i128).saturating_mul(3600))
+        .saturating_add((minutes.0 as i128).saturating_mul(60))
+        .saturating_add(seconds.0 as i128);
+    // Subseconds part: summed exactly in nanoseconds, then reduced to whole seconds once.
+    let subsecond_nanoseconds = (milliseconds.0 as i128)
+        .saturating_mul(1_000_000)
+        .saturating_add((microseconds.0 as i128).saturating_mul(1_000))
+        .saturating_add(nanoseconds.0 as i128);
+    let normalized_subseconds_parts = subsecond_nanoseconds / 1_000_000_000;
 
-    let normalized_seconds = normalized_seconds + normalized_subseconds_parts;
+    let normalized_seconds = normalized_seconds.saturating_add(normalized_subseconds_parts);
     // 8. If abs(normalizedSeconds) ≥ 2**53, return false.
     if normalized_seconds.abs() >= TWO_POWER_FIFTY_THREE {
         return false;
